@@ -1,4 +1,5 @@
 import EtVerif.Props.C02
+import EtVerif.Props.TrC09
 #print axioms EtVerif.C02.step_den
 #print axioms EtVerif.C02.step_wf
 #print axioms EtVerif.C02.step_mass
@@ -6,3 +7,18 @@ import EtVerif.Props.C02
 #print axioms EtVerif.C02.iterate_distribution
 #print axioms EtVerif.C02.compute_distribution
 #print axioms EtVerif.C02.compute_sum_one
+-- refinement of the translated Go kernels (Gen/Translated.lean, regenerated from /repo) to the model
+#print axioms EtVerif.TrC09.kbn_add
+#print axioms EtVerif.TrC09.kbn_sum
+#print axioms EtVerif.TrC09.vector_sum
+#print axioms EtVerif.TrC09.addVec
+#print axioms EtVerif.TrC09.subVec
+#print axioms EtVerif.TrC09.scaleInPlace
+#print axioms EtVerif.TrC09.scaleVec
+#print axioms EtVerif.TrC09.vecDot_partial
+#print axioms EtVerif.TrC09.vecDot_iff
+#print axioms EtVerif.TrC09.vecDot_field
+#print axioms EtVerif.TrC09.assign
+#print axioms EtVerif.TrC09.clone
+#print axioms EtVerif.TrC09.reset
+#print axioms EtVerif.TrC09.setDim
